@@ -417,13 +417,22 @@ def deep_nesting_time():
     return worst, wsrc
 
 
-def _stmt_hook(ex, stmt):
-    """the block's single statement: every `stmts().next()` / `.unwrap()` hands out the same arbitrary Stmt"""
-    from ..summaries import opt_some
+def _stmt_hook(ex, stmt, empty=False):
+    """the block's single statement: the first `next()` of every statement iterator hands out the same arbitrary Stmt, the second one
+    None (`empty`: a block without statements and without a last statement)"""
+    from ..summaries import opt_some, opt_none
 
     def h(ex_, st, callee, args, dty):
-        if re.search(r"as Iterator>::next$", canon(callee)) and re.fullmatch(r"(std::option::)?Option<&(\w+::)*Stmt>", dty.strip()):
-            return opt_some(dty, RefV(stmt))
+        c = canon(callee)
+        if re.search(r"as Iterator>::next$", c) and re.fullmatch(r"(std::option::)?Option<&(\w+::)*Stmt>", dty.strip()):
+            key = ("stmt-iter", repr(args[0].key) if isinstance(args[0], Ref) else id(args[0]))
+            k = st.aux.get(key, 0)
+            st.aux[key] = k + 1
+            return opt_some(dty, RefV(stmt)) if (k == 0 and not empty) else opt_none(dty)
+        if re.search(r"as Iterator>::count$", c) and "Stmt" in callee:
+            return Sym(z3.BitVecVal(0 if empty else 1, 64), "usize")
+        if empty and c.endswith("Block::last_stmt"):
+            return opt_none(dty)
         return NotImplemented
     return h
 
@@ -457,6 +466,19 @@ def collapse_guard_covers(ses, rep, fs):
         kinds[want] = got
     if not kinds["accept"]:
         raise Inconclusive("is_block_simple: no statement kind is accepted (kernel G lost its subject)")
+    # an EMPTY block is never simple: format_if's collapsed layout takes the block's only statement (`'if guard' conditional but has no body`)
+    ex = ses.executor("lib", fs, inline=lambda n, fn: False)
+    ex.max_block_visits = 2
+    ex.hooks = [_stmt_hook(ex, ex.fresh_lazy("Stmt", "none"), empty=True)]
+    fn = ses.need(ex, "is_block_simple")
+    for pi, o in enumerate(ex.run(fn, lazy_args(ex, fn))):
+        if o.kind != "return" or not isinstance(o.value, Sym):
+            continue
+        r, m = ses.obligation(f"collapse-guard/{fs}/is_block_simple/path{pi}/false-for-an-empty-block", list(o.pc), o.value.t if z3.is_bool(o.value.t) else o.value.t != 0,
+                              "a block without statements and without a last statement is not `simple`")
+        if r == "sat":
+            flagged.append((f"collapse-guard/{fs}/is_block_simple/path{pi}/false-for-an-empty-block", "is_block_simple accepts an empty block: format_if's collapsed layout "
+                            "panics on it ('if guard' conditional but has no body)", "panic-site", {"function": "format_if", "featureset": fs, "kinds": {}}))
     for k in sorted(kinds["accept"]):
         for key, gfn in (("panic", "block_contains_nested_function"), ("panic:format_stmt_no_trivia", "format_stmt_no_trivia")):
             oid = f"collapse-guard/{fs}/is_block_simple-accepts-{k}/handled-by-{gfn}"
@@ -485,6 +507,38 @@ def collapse_guard_covers(ses, rep, fs):
     if n == 0:
         raise Inconclusive("should_collapse_function_body: no path calls block_contains_nested_function")
     rep.extra.setdefault("collapse_guard", {})[fs] = {k: sorted(v) for k, v in kinds.items()}
+    return flagged
+
+
+SLICING = re.compile(r"(^|::)(split_at|split_at_mut|split_at_checked_unwrap|split_off|swap_remove|drain|copy_from_slice|char_at|slice_unchecked)$|"
+                     r"Index<std::ops::Range(From|To|Inclusive|ToInclusive|Full)?<usize>>>::index(_mut)?$|(^|::)(Vec|String|VecDeque)(::<[^>]*>)?::(remove|insert)$")
+# (function regex) -> reason: slicing sites of the pinned tree that another kernel decides
+SLICING_OK = [(r"visit_number$", "the `[2..]` slices of --verify's number normalisation are decided by kernel E (all number tokens of the tokenizer's language)")]
+
+
+def slicing_sites(ses, rep, fs):
+    """S2: std slicing / indexing-by-range functions panic on an offset that is out of bounds or inside a multi-byte character; the formatter works on
+    token TEXT (comments, strings, names - any UTF-8). Census over the library MIR: no such call outside the sites listed in SLICING_OK."""
+    flagged = []
+    funcs = ses.mir("lib", fs)
+    n = 0
+    for name, l in sorted(funcs.items()):
+        for f in l:
+            for bb, sts in f.blocks.items():
+                for s_ in sts:
+                    if s_[0] != "call":
+                        continue
+                    c = canon(s_[2])
+                    if not SLICING.search(re.sub(r"::<[^<>]*>$", "", c)):
+                        continue
+                    n += 1
+                    ok = [why for pat, why in SLICING_OK if re.search(pat, f.name)]
+                    oid = f"slicing/{fs}/{f.name[-50:]}/{bb}/{c.split('::')[-1][:30]}"
+                    r, m = ses.obligation(oid, [], z3.BoolVal(not ok), "no offset-based slicing of token text outside the decided sites")
+                    if r == "sat":
+                        flagged.append((oid, f"{f.name} slices / splits at a computed offset ({c[-60:]}): panics when the offset is out of range or inside a multi-byte character",
+                                        "panic-site", {"function": f.name, "featureset": fs, "kinds": {}, "slicing": True}))
+    rep.bounds[f"slicing_sites_{fs}"] = n
     return flagged
 
 
@@ -631,6 +685,9 @@ def run(ses, rep):
     # G
     for fs in ("default", "full"):
         flagged += collapse_guard_covers(ses, rep, fs)
+    # S2
+    for fs in ("default", "full"):
+        flagged += slicing_sites(ses, rep, fs)
     # F
     for fs in ("default", "full"):
         flagged += prefix_stays_parenthesised(ses, rep, fs)
@@ -655,6 +712,8 @@ def run(ses, rep):
                 cache[fs] = corpus_panics(fs)
             sf = source_file(common.REPO, info["function"])
             hit = [p for p in cache[fs] if sf and p["panic_at"].startswith(sf)]
+            if not hit and info.get("slicing"):       # the panic is raised inside std (core::str / alloc::vec): recognised by its message
+                hit = [p for p in cache[fs] if re.search(r"char boundary|byte index|out of range|out of bounds|index out of|removal index|insertion index|mid > len", p["message"] + p["panic_at"])]
             if hit:
                 st = rep.violation({"obligation": "panic-site", "function": info["function"]}, {"what": what, **hit[0]})
                 rep.add(oid, st, f"{what}: {hit[0]['program']} {hit[0]['flags']} panicked at {hit[0]['panic_at']}")
